@@ -76,7 +76,7 @@ func kdTo(d m.Dest) m.KD   { return m.KD{K: "to", D: &d} }
 var edgeClasses = []string{
 	"neg-cap", "neg-overdraft", "neg-dest-max", "world-var", "balance-world", "octal-portion",
 	"extraneous-var", "number-format", "neg-monetary-var", "save-expr", "late-asset-mismatch",
-	"kept", "save-overdraft", "portions-over-100",
+	"kept", "save-overdraft", "portions-over-100", "save-clamp",
 }
 
 func genEdge(r *rand.Rand, class string) (m.Script, m.RunEnv) {
@@ -153,6 +153,15 @@ func genEdge(r *rand.Rand, class string) (m.Script, m.RunEnv) {
 		rem := kdTo(toAcct("b"))
 		d := m.Dest{K: "inorder", Items: []m.InOrderDstItem{{E: *lit(A, 1+r.Intn(x+y)), D: m.KD{K: "kept"}}}, Rem: &rem}
 		sc.Stmts = append(sc.Stmts, send(lit(A, x+y), s, d))
+	case "save-clamp":
+		// saving more than the balance: the machine's tracked balance goes negative, the
+		// interpreter's stops at 0; funds received afterwards are then spendable or not
+		env.Balances["a"][A] = fmt.Sprint(x)
+		sc.Stmts = append(sc.Stmts, m.Stmt{K: "save", E: lit(A, x+y), Acc: at("a")})
+		sc.Stmts = append(sc.Stmts, send(lit(A, z), srcAcct(at("world"), nil), toAcct("a")))
+		all := srcAcct(at("a"), nil)
+		dd := toAcct("d")
+		sc.Stmts = append(sc.Stmts, m.Stmt{K: "sendall", E: &m.Expr{K: "asset", S: A}, Src: &m.VSource{K: "src", S: &all}, Dst: &dd})
 	case "save-overdraft":
 		env.Balances["a"][A] = fmt.Sprint(x)
 		sc.Stmts = append(sc.Stmts, m.Stmt{K: "save", E: lit(A, x+y+z), Acc: at("a")})
